@@ -713,6 +713,11 @@ func (m *Machine) drawSummary(n *Term) Val {
 		m.assume(Cmp("bvult", old.D, n))
 		return old.D
 	}
+	if m.drawLimit > 0 && len(m.draws) >= m.drawLimit {
+		msg := m.drawLimitMsg
+		m.drawLimit = 0
+		m.assert(tFalse, msg)
+	}
 	d := Var(fmt.Sprintf("draw%d", len(m.draws)), 32)
 	m.draws = append(m.draws, drawRec{N: n, D: d})
 	// the tape that realises this draw: the accepted word is d itself
